@@ -36,7 +36,7 @@ type c19Case struct {
 	Ops  []c19Op `json:"ops"`
 }
 
-var c19Mutating = []string{"AddFact", "RemFact", "AddRule", "RemRule", "EnableRule", "SetParents", "Clear", "EventAdd", "EventRem", "EventAddRule", "JSAddFact"}
+var c19Mutating = []string{"AddFact", "RemFact", "AddRule", "RemRule", "EnableRule", "SetParents", "Clear", "EventAdd", "EventRem", "EventAddRule", "JSAddFact", "EventTrigger"}
 var c19Revealing = []string{"GetFact", "GetRule", "SearchFacts", "SearchRules", "ListRules", "Query", "StateSize", "GetParents", "EventSearch", "JSSearch", "EventPlain",
 	"SearchInherited", "ListRulesInherited", "SearchRulesInherited"}
 
@@ -140,6 +140,9 @@ func c19Do(loc *core.Location, ctx *core.Context, x c19Op) (res string, err erro
 		return evt(core.Map{"do": "search"})
 	case "EventPlain":
 		return evt(core.Map{"plain": "x"})
+	case "EventTrigger":
+		// the tick of a one-shot scheduled rule: runs it and then deletes it
+		return evt(core.Map{"trigger!": "once"})
 	case "JSAddFact":
 		var v interface{}
 		v, err = loc.RunJavascript(ctx, fmt.Sprintf("Env.AddFact('%s', {v: 'fromjs'}); 'ok'", x.Id), nil, nil, nil)
@@ -271,10 +274,11 @@ func runC19(c c19Case) *vlib.Outcome {
 	setup := func(loc *core.Location) error {
 		ctx := newCtx()
 		rules := map[string]M{
-			"ra":  {"when": M{"pattern": M{"do": "add", "id": "?i"}}, "action": M{"code": "Env.AddFact(i, {v:'fromAction'}); 'added'"}},
-			"rr":  {"when": M{"pattern": M{"do": "rem", "id": "?i"}}, "action": M{"code": "Env.RemFact(i); 'removed'"}},
-			"rar": {"when": M{"pattern": M{"do": "addrule", "id": "?i"}}, "action": M{"code": "Env.AddRule(i, {when:{pattern:{plain:'x'}}, action:{code:\"'plain-a'\"}}); 'ruleadded'"}},
-			"rs":  {"when": M{"pattern": M{"do": "search"}}, "action": M{"code": "'found ' + Env.Search({v:'?v'}).Found.length"}},
+			"ra":   {"when": M{"pattern": M{"do": "add", "id": "?i"}}, "action": M{"code": "Env.AddFact(i, {v:'fromAction'}); 'added'"}},
+			"rr":   {"when": M{"pattern": M{"do": "rem", "id": "?i"}}, "action": M{"code": "Env.RemFact(i); 'removed'"}},
+			"rar":  {"when": M{"pattern": M{"do": "addrule", "id": "?i"}}, "action": M{"code": "Env.AddRule(i, {when:{pattern:{plain:'x'}}, action:{code:\"'plain-a'\"}}); 'ruleadded'"}},
+			"rs":   {"when": M{"pattern": M{"do": "search"}}, "action": M{"code": "'found ' + Env.Search({v:'?v'}).Found.length"}},
+			"once": {"schedule": "+1000h", "action": M{"code": "'once-ran'"}},
 		}
 		for id, r := range rules {
 			if _, err := loc.AddRule(ctx, id, core.Map(r)); err != nil {
@@ -376,7 +380,7 @@ func runC19(c c19Case) *vlib.Outcome {
 			needsRead = true // every operation reports a disabled location
 		}
 		// event dispatch, condition queries and Env.Search include the parents
-		inherited := strings.HasSuffix(x.K, "Inherited") || viaEvent || x.K == "Query" || x.K == "JSSearch"
+		inherited := strings.HasSuffix(x.K, "Inherited") || (viaEvent && x.K != "EventTrigger") || x.K == "Query" || x.K == "JSSearch"
 		parentReadable := ctx.ReadKey == c19ParentKey
 		authorised := (!needsRead || mayRead) && (!needsWrite || mayWrite)
 		if inherited && !parentReadable && parentsIntact {
@@ -393,7 +397,13 @@ func runC19(c c19Case) *vlib.Outcome {
 		after := c19Snapshot(w, "P")
 		if !authorised {
 			o.Label("refused")
-			if err == nil && viaEvent && mayRead && res == "" {
+			if x.K == "EventTrigger" && mayRead && !mayWrite {
+				// the rule runs, but deleting it afterwards needs write
+				// access: an error must be reported and the rule stays
+				if err == nil {
+					o.Fail("UNAUTHORISED_CALL_SUCCEEDED", "%s: the one-shot rule was retired (no error) although the caller may not write", when)
+				}
+			} else if err == nil && viaEvent && mayRead && res == "" {
 				// the event itself may be processed; no rule ran a
 				// successful action (e.g. the rules were cleared)
 			} else if err == nil {
@@ -421,6 +431,14 @@ func runC19(c c19Case) *vlib.Outcome {
 			}
 			if x.K == "SetParents" && err == nil {
 				parentsIntact = false
+			}
+			if x.K == "EventTrigger" && err == nil {
+				once := core.Map{"schedule": "+1000h", "action": M{"code": "'once-ran'"}}
+				ro := prot.readOnly
+				P.SetReadOnly(newCtx(), false)
+				P.AddRule(c19Ctx(P, "right", prot), "once", once)
+				P.SetReadOnly(newCtx(), ro)
+				U.AddRule(newCtx(), "once", once)
 			}
 			if x.K == "Clear" && err == nil {
 				parentsIntact = false
